@@ -4,6 +4,7 @@ R30.1 linearisation agreement: the slot index computed in TABresult.to_grid, the
       k-points, the reshape in get_data and the flatten in fermiSurfer all denote C order.
 R30.2 slot map: one list per grid slot; every on-grid k-point is appended to the slot of its own index; K__Result.to_grid
       averages each slot over its own members.
+R30.4 Tabulator: column j holds the value of the group containing the j-th requested band (order of `ibands` kept).
 R30.3 component extraction: x,y,z ↦ 0,1,2; trace sums the (i,i,…) diagonal; tuple components index trailing axes in order.
 """
 from __future__ import annotations
@@ -13,7 +14,9 @@ from typing import Dict, List, Optional
 
 from ..algebra import Rat, to_rat
 from ..index import AnalysisError, call_name, norm, norm1
-from .common import Frag, calls, const_of, enclosing, fctx, in_body, is_name, kwarg, method_calls, pmatch, stmts
+from ..sem import Sem, built_container
+from .groups import check_band_values
+from .common import index_domain, Frag, calls, const_of, enclosing, fctx, in_body, is_name, kwarg, method_calls, pmatch, stmts
 
 LEVEL = "other"
 EXPLANATION = (
@@ -34,6 +37,36 @@ def _order_is_C(call: ast.Call, pos: Optional[int] = None):
     return v in ("C", "c"), v
 
 
+def _defs_of_shape(a0: ast.AST, du, at: int):
+    """Definitions that decide the leading axes of a reshape target `a0` (a name, or name + tuple…)."""
+    first = a0
+    while isinstance(first, ast.BinOp) and isinstance(first.op, ast.Add):
+        first = first.left
+    if isinstance(first, ast.Name):
+        return du.reaching(first.id, at) or [None]
+    class _D:  # literal expression
+        kind, value, name, node = "assign", first, "", at
+    return [_D()]
+
+
+def _leading_is_grid(S, value, d, du) -> bool:
+    """The tuple bound by definition d starts with tuple(self.grid) (appending on the right keeps the leading axes)."""
+    if d is None:
+        return False
+    if d.kind == "aug":
+        return isinstance(d.stmt.op, ast.Add) and all(_leading_is_grid(S, x.value if x.kind != "aug" else None, x, du) for x in (du.reaching(d.name, d.node) or [None]))
+    v = d.value
+    if v is None:
+        return False
+    while isinstance(v, ast.BinOp) and isinstance(v.op, ast.Add):
+        v = v.left
+    if norm(v) in ("tuple(self.grid)", "tuple(self.grid.tolist())"):
+        return True
+    if isinstance(v, ast.Name) and v.id == d.name:
+        return all(_leading_is_grid(S, x.value if x.kind != "aug" else None, x, du) for x in (du.reaching(d.name, d.node) or [None]))
+    return False
+
+
 def run(ctx) -> None:
     idx = ctx.index
 
@@ -41,73 +74,70 @@ def run(ctx) -> None:
     r1 = ctx.rule("R30.1", "one linearisation (C order) across to_grid / get_data / fermiSurfer", min_instances=4)
     tg = idx.function(TAB, "TABresult.to_grid")
     cfg, du, pm = fctx(tg)
-    F = Frag(tg)
+    S = Sem(idx, tg)
     gridp, orderp = (tg.params + [None, None, None])[1:3]
     r1.expect(gridp is not None and orderp is not None, "to_grid(self, grid, order)", tg, tg.node, "to_grid no longer has the parameters (grid, order)")
-    # locate the slot store  k_map[ind_grid[ik]].append(ik)  → names of the slot list and the index array
+    GF = (f"{gridp}[None, :]", gridp, f"{gridp}[np.newaxis, :]", f"np.array({gridp})[None, :]")
     app0 = pmatch(tg.node, "KM[IDX].append(IK)", {"KM", "IDX", "IK"})
     if len(app0) != 1:
         r1.expect(False, "slot store located", tg, tg.node, "to_grid: the store `slots[…].append(ik)` was not found (exactly once)")
         return
-    app = F.find("k_map[ind_grid[ik]].append(ik)")
-    if len(app) != 1:
-        r1.violation(tg, app0[0][0], f"`{norm1(app0[0][0])}`: k-point {app0[0][1]['IK']} is appended to slot `{app0[0][1]['IDX']}`, which is not the slot "
-                     f"index computed for that same k-point (index[{app0[0][1]['IK']}])")
+    appn, ab = app0[0]
+    app_stmt = enclosing(pm, appn, ast.stmt)
+    ikv, kmap = ab["IK"], ab["KM"]
+    r1.instance(f"{tg.short}: {norm1(app_stmt, 100)}")
+    idx_res = S.resolve(appn.func.value.slice, cfg.node(app_stmt))
+    # slot index of k-point ik = (array expression)[ik]
+    if not (isinstance(idx_res, ast.Subscript) and norm(idx_res.slice) == ikv):
+        r1.violation(tg, appn, f"`{norm1(appn)}`: k-point {ikv} is appended to slot `{norm1(idx_res, 80)}`, which is not the slot index computed for that same "
+                     f"k-point (index[{ikv}])")
         return
-    ind_name = app[0][1]["ind_grid"]
-    d = du.single_def(ind_name, du.node_of_expr(app[0][0])) if ind_name.isidentifier() else None
-    if d is None or d.kind != "assign":
-        r1.expect(False, "slot index has one definition", tg, app[0][0], f"to_grid: `{ind_name}` does not have a single plain definition")
-        return
-    r1.instance(f"{tg.short}: {norm1(d.stmt, 100)}")
-    kint_names = set()
+    kint_bases = set()
 
     def env(x):
         if isinstance(x, ast.Subscript):
             sl = x.slice
-            if isinstance(x.value, ast.Name) and isinstance(sl, ast.Tuple) and len(sl.elts) == 2 and isinstance(sl.elts[0], ast.Slice) \
-                    and isinstance(sl.elts[1], ast.Constant) and sl.elts[1].value in (0, 1, 2) and x.value.id != gridp:
-                kint_names.add(x.value.id)
+            if isinstance(sl, ast.Tuple) and len(sl.elts) == 2 and isinstance(sl.elts[0], ast.Slice) and isinstance(sl.elts[1], ast.Constant) \
+                    and sl.elts[1].value in (0, 1, 2) and norm(x.value) != gridp:
+                kint_bases.add(norm(x.value))
                 return Rat.sym(f"k{sl.elts[1].value}")
-            if isinstance(x.value, ast.Name) and x.value.id == gridp and isinstance(sl, ast.Constant) and sl.value in (0, 1, 2):
+            if norm(x.value) == gridp and isinstance(sl, ast.Constant) and sl.value in (0, 1, 2):
                 return Rat.sym(f"g{sl.value}")
-        if isinstance(x, ast.Name):
-            dd = du.single_def(x.id, d.node)
-            if dd is not None and dd.kind == "assign" and not any(isinstance(n, ast.Call) for n in ast.walk(dd.value)):
-                return to_rat(dd.value, env)
+            if isinstance(x.value, (ast.Tuple, ast.List)) and isinstance(sl, ast.Constant) and isinstance(sl.value, int) and sl.value < len(x.value.elts):
+                return to_rat(x.value.elts[sl.value], env)
         return None
-    got = to_rat(d.value, env)
+    try:
+        got = to_rat(idx_res.value, env)
+    except AnalysisError as e_:
+        r1.expect(False, "slot index is integer arithmetic on the grid coordinates", tg, app_stmt, f"to_grid: slot index `{norm1(idx_res.value, 90)}` is outside the arithmetic subset ({e_})")
+        return
     want = Rat.sym("k0") * Rat.sym("g1") * Rat.sym("g2") + Rat.sym("k1") * Rat.sym("g2") + Rat.sym("k2")
-    r1.check(got.equals(want) and len(kint_names) == 1, "slot index = k0·g1·g2 + k1·g2 + k2 (C order)", tg, d.stmt,
-             f"the slot index `{norm1(d.value)}` is not the C-order linearisation k0·g1·g2 + k1·g2 + k2: values are attached to other "
+    r1.check(got.equals(want) and len(kint_bases) == 1, "slot index = k0·g1·g2 + k1·g2 + k2 (C order)", tg, app_stmt,
+             f"the slot index `{norm1(idx_res.value, 120)}` is not the C-order linearisation k0·g1·g2 + k1·g2 + k2: values are attached to other "
              f"grid points than the k-points stored next to them")
-    kint = next(iter(kint_names)) if len(kint_names) == 1 else None
-    if kint is not None:
-        # integer coordinates: rint(k·grid) folded into [0, g) before they are linearised
-        defs = [x for x in du.reaching(kint, d.node)]
-        fold = [x for x in defs if x.value is not None and (pmatch(x.value, f"KI % {gridp}[None, :]", {"KI"}) or pmatch(x.value, f"KI % {gridp}", {"KI"})
-                                                           or pmatch(x.value, f"np.mod(KI, {gridp}[None, :])", {"KI"}))
-                and any(pmatch(x.value, pt, {"KI"})[0][0] is x.value for pt in (f"KI % {gridp}[None, :]", f"KI % {gridp}", f"np.mod(KI, {gridp}[None, :])")
-                        if pmatch(x.value, pt, {"KI"}))]
-        r1.check(len(defs) == 1 and len(fold) == 1, "integer grid coordinates are folded into [0, g) before linearisation", tg, d.stmt,
-                 f"`{kint}` is not reduced modulo the grid before the slot index is computed: k-points given outside [0,1) index other slots "
+    if len(kint_bases) == 1:
+        base = ast.parse(next(iter(kint_bases)), mode="eval").body
+        folded = any(pmatch(base, f"KI % {g_}", {"KI"}) and pmatch(base, f"KI % {g_}", {"KI"})[0][0] is base for g_ in GF) or \
+            any(pmatch(base, f"np.mod(KI, {g_})", {"KI"}) and pmatch(base, f"np.mod(KI, {g_})", {"KI"})[0][0] is base for g_ in GF)
+        r1.check(folded, "integer grid coordinates are folded into [0, g) before linearisation", tg, app_stmt,
+                 f"`{norm1(base, 90)}` is not reduced modulo the grid before the slot index is computed: k-points given outside [0,1) index other slots "
                  f"(or past the end)")
-        sl, _, _ = du.backward_slice(ast.Name(id=kint, ctx=ast.Load()), d.node)
-        r1.check(any(pmatch(e, f"np.rint(self.kpoints * {gridp}[None, :]).astype(int)") or pmatch(e, f"np.rint(self.kpoints * {gridp}).astype(int)") for e in sl),
-                 "integer coordinates = rint(k · grid)", tg, d.stmt, "the integer grid coordinates are no longer rint(self.kpoints · grid)")
+        r1.check(any(pmatch(base, f"np.rint(self.kpoints * {g_}).astype(int)") or pmatch(base, f"np.round(self.kpoints * {g_}).astype(int)") for g_ in GF),
+                 "integer coordinates = rint(k · grid)", tg, app_stmt, "the integer grid coordinates are no longer rint(self.kpoints · grid)")
     # the new k-points
     mg = [c for c in calls(tg.node, "meshgrid")]
     if len(mg) != 1:
         r1.expect(False, "meshgrid located", tg, tg.node, "to_grid: the np.meshgrid call that builds the grid k-points was not found")
     else:
         m = mg[0]
-        ax = [norm(a_) for a_ in m.args]
         gl = {a_.value.id for a_ in m.args if isinstance(a_, ast.Subscript) and isinstance(a_.value, ast.Name)}
-        ax_ok = len(m.args) == 3 and len(gl) == 1 and ax == [f"{next(iter(gl))}[{i}]" for i in range(3)]
+        star = len(m.args) == 1 and isinstance(m.args[0], ast.Starred) and isinstance(m.args[0].value, ast.Name)
+        if star:
+            gl = {m.args[0].value.id}
+        ax_ok = star or (len(m.args) == 3 and len(gl) == 1 and [norm(a_) for a_ in m.args] == [f"{next(iter(gl))}[{i}]" for i in range(3)])
         r1.check(ax_ok and const_of(kwarg(m, "indexing"), "xy") == "ij", "grid k-points: meshgrid of axes 0,1,2 with indexing='ij'", tg, m,
                  f"`{norm1(m)}`: the grid k-points are not generated as meshgrid(axis0, axis1, axis2, indexing='ij') (numpy's default 'xy' swaps "
                  f"the first two axes): k-points and values are paired differently")
-        rs = pm.get(pm.get(pm.get(m)))   # np.array(meshgrid).reshape
         outer = [c for c in method_calls(tg.node, "reshape") if any(n is m for n in ast.walk(c.func))]
         if len(outer) != 1:
             r1.expect(False, "reshape of the meshgrid located", tg, m, "to_grid: reshape of the meshgrid not found")
@@ -120,12 +150,11 @@ def run(ctx) -> None:
                      "grid k-points flattened as (3, -1) with the requested order, one row per k-point", tg, rc,
                      f"`{norm1(rc, 90)}`: the grid k-points are not flattened with reshape((3, -1), order=<requested order>).T")
         if gl:
-            gd_ = du.single_def(next(iter(gl)), du.node_of_expr(m))
-            r1.check(gd_ is not None and bool(pmatch(gd_.value, f"[np.linspace(0.0, 1.0, G_, False) for G_ in {gridp}]", {"G_"})
-                                               or pmatch(gd_.value, f"[np.linspace(0.0, 1.0, G_, endpoint=False) for G_ in {gridp}]", {"G_"})
-                                               or pmatch(gd_.value, f"[np.arange(G_) / G_ for G_ in {gridp}]", {"G_"})),
-                     "axis i holds the points j/g_i, j = 0..g_i−1", tg, gd_.stmt if gd_ else m,
-                     "the grid axes are no longer the g_i equidistant points j/g_i of [0, 1)")
+            gv = S.resolve(ast.Name(id=next(iter(gl)), ctx=ast.Load()), du.node_of_expr(m))
+            forms = [f"[np.linspace(0.0, 1.0, G_, False) for G_ in {gridp}]", f"[np.linspace(0.0, 1.0, G_, endpoint=False) for G_ in {gridp}]",
+                     f"[np.linspace(0, 1, G_, endpoint=False) for G_ in {gridp}]", f"[np.arange(G_) / G_ for G_ in {gridp}]"]
+            r1.check(any(pmatch(gv, f_, {"G_"}) for f_ in forms), "axis i holds the points j/g_i, j = 0..g_i−1", tg, m,
+                     f"the grid axes `{norm1(gv, 80)}` are no longer the g_i equidistant points j/g_i of [0, 1)")
     sg = idx.function(TAB, "TABresult.self_to_grid")
     r1.instance(sg.short)
     tc = [c for c in method_calls(sg.node, "to_grid") if norm(c.func.value) == "self"]
@@ -143,17 +172,15 @@ def run(ctx) -> None:
     gd = idx.function(TAB, "TABresult.__get_data_grid")
     r1.instance(gd.short)
     rsh = method_calls(gd.node, "reshape")
-    r1.expect(len(rsh) >= 2, "get_data reshapes located", gd, gd.node, "__get_data_grid: reshape calls not found")
+    r1.expect(len(rsh) >= 1, "get_data reshapes located", gd, gd.node, "__get_data_grid: reshape calls not found")
     gcfg, gdu, gpm = fctx(gd)
+    gS = Sem(idx, gd)
     for rc in rsh:
         okc, v = _order_is_C(rc, 1)
         r1.check(okc, "get_data reshapes the slot axis in C order", gd, rc,
                  f"`{norm1(rc, 80)}` reshapes the slot axis with order={v!r} although the slots were filled in C order")
         a0 = rc.args[0] if rc.args else None
-        first = a0.left if isinstance(a0, ast.BinOp) and isinstance(a0.op, ast.Add) else a0
-        shp_defs = gdu.reaching(first.id, gdu.node_of_expr(rc)) if isinstance(first, ast.Name) else []
-        okshape = bool(shp_defs) and all(x.value is not None and (norm(x.value) == "tuple(self.grid)" or norm(x.value).startswith("tuple(self.grid) + "))
-                                         for x in shp_defs)
+        okshape = a0 is not None and all(_leading_is_grid(gS, x.value if x.kind != "aug" else None, x, gdu) for x in _defs_of_shape(a0, gdu, gdu.node_of_expr(rc)))
         r1.check(okshape, "… to the grid shape (g0, g1, g2[, bands, components])", gd, rc,
                  f"`{norm1(rc, 80)}`: the leading axes of the reshaped data are not tuple(self.grid)")
     fs = idx.function(TAB, "fermiSurfer")
@@ -173,29 +200,36 @@ def run(ctx) -> None:
 
     # ---------------------------------------------------------------- R30.2
     r2 = ctx.rule("R30.2", "slot map and per-slot averaging", min_instances=2)
-    kmap = app[0][1]["k_map"]
     r2.instance(f"{tg.short}: {kmap}")
-    kd = du.single_def(kmap, du.node_of_expr(app[0][0])) if kmap.isidentifier() else None
-    fresh = kd is not None and kd.value is not None and (
-        pmatch(kd.value, f"[[] for I in range(np.prod({gridp}))]", {"I"}) or pmatch(kd.value, f"[list() for I in range(np.prod({gridp}))]", {"I"})
-        or pmatch(kd.value, f"[[] for I in range(int(np.prod({gridp})))]", {"I"}))
+    kd = du.single_def(kmap, cfg.node(app_stmt)) if kmap.isidentifier() else None
+    fresh = kd is not None and kd.value is not None and any(
+        pmatch(kd.value, f_, {"I"}) for f_ in (f"[[] for I in range(np.prod({gridp}))]", f"[list() for I in range(np.prod({gridp}))]",
+                                               f"[[] for I in range(int(np.prod({gridp})))]", f"[[] for I in range({gridp}.prod())]"))
     r2.check(bool(fresh), "one (independent) list per grid slot", tg, kd.stmt if kd else tg.node,
              f"`{norm1(kd.stmt) if kd else kmap}`: the slot map is not one fresh list per grid slot (e.g. `[[]] * n` shares one list between all slots)")
-    appn = app[0][0]
-    g = enclosing(pm, appn, ast.If)
     lp = enclosing(pm, appn, ast.For)
-    ikv = app[0][1]["ik"]
-    on = None
-    if g is not None and isinstance(g.test, ast.Subscript) and norm(g.test.slice) == ikv and isinstance(g.test.value, ast.Name) and in_body(g.body, appn):
-        on = gdef = du.single_def(g.test.value.id, cfg.node(g))
-    r2.check(on is not None and on.value is not None and "< 1e-" in norm(on.value) and "self.kpoints" in norm(on.value),
-             "k-point ik goes to the slot of its own index, only if it lies on the grid", tg, appn,
-             "a k-point is appended without the on-grid test of that same k-point: off-grid points are averaged into grid slots")
-    r2.check(lp is not None and isinstance(lp.target, ast.Name) and lp.target.id == ikv
-             and norm(lp.iter).replace(" ", "") in ("range(len(self.kpoints))", "range(self.kpoints.shape[0])"),
+    conds = S.conditions(app_stmt)
+    on_ok = False
+    for txt, pol, tnode in conds:
+        if not pol:
+            continue
+        c_ = ast.parse(txt, mode="eval").body
+        m_ = pmatch(c_, f"np.all(abs(ANY - self.kpoints) < TOL, axis=1)[{ikv}]", {"TOL"}) or pmatch(c_, f"np.all(np.abs(ANY - self.kpoints) < TOL, axis=1)[{ikv}]", {"TOL"})
+        if m_ and m_[0][0] is c_:
+            tol = const_of(ast.parse(m_[0][1]["TOL"], mode="eval").body)
+            on_ok = isinstance(tol, float) and 0 < tol < 0.01
+    r2.check(on_ok, "k-point ik goes to the slot of its own index, only if it lies on the grid", tg, app_stmt,
+             "a k-point is appended without the on-grid test |rint(k·grid)/grid − k| < tol of that same k-point: off-grid points are averaged into grid slots")
+    iv_, seqs = index_domain(lp) if lp is not None else (None, [])
+    r2.check(lp is not None and iv_ == ikv and "self.kpoints" in seqs and all(x == "self.kpoints" or "self.kpoints" in S.rnorm(ast.parse(x, mode="eval").body, cfg.node(lp)) for x in seqs),
              "every stored k-point is considered", tg, lp or tg.node, "not every stored k-point is mapped to the grid")
-    res = F.find(f"{{r: self.results[r].to_grid({kmap}) for r in self.results}}") or F.find(f"{{r: v.to_grid({kmap}) for r, v in self.results.items()}}")
-    r2.check(bool(res), "every quantity is gathered with the same slot map", tg, tg.node,
+    res = [n for n in ast.walk(tg.node) if isinstance(n, ast.DictComp) and any(c.args and norm(c.args[0]) == kmap for c in method_calls(n, "to_grid"))]
+    okres = False
+    if len(res) == 1:
+        dc = res[0]
+        okres = bool(pmatch(dc, f"{{R_: self.results[R_].to_grid({kmap}) for R_ in self.results}}", {"R_"}) or
+                     pmatch(dc, f"{{R_: V_.to_grid({kmap}) for R_, V_ in self.results.items()}}", {"R_", "V_"}))
+    r2.check(okres, "every quantity is gathered with the same slot map", tg, res[0] if res else tg.node,
              "not every tabulated quantity is gathered with the slot map", stmt="results to_grid")
     kg = idx.function(KB, "K__Result.to_grid")
     r2.instance(kg.short)
@@ -215,49 +249,105 @@ def run(ctx) -> None:
     else:
         r2.expect(False, "slot average located", kg, kg.node, "K__Result.to_grid: the per-slot average was not found")
     ta = idx.function(TC, "TabulatorAll.__call__")
+    TS = Sem(idx, ta)
     ctor = [c for c in ast.walk(ta.node) if isinstance(c, ast.Call) and call_name(c).endswith("TABresult")]
     if len(ctor) != 1:
         r2.expect(False, "TABresult constructor located", ta, ta.node, "TabulatorAll.__call__: TABresult(…) not found")
     else:
         dk = ta.params[1]
+        at_c = TS.du.node_of_expr(ctor[0])
         kp = kwarg(ctor[0], "kpoints", 0)
-        rs_ = kwarg(ctor[0], "results")
-        okk = kp is not None and norm(kp) in (f"{dk}.kpoints_all.copy()", f"{dk}.kpoints_all")
-        okr = isinstance(rs_, ast.DictComp) and bool(pmatch(rs_, f"{{K: V({dk}) for K, V in self.tabulators.items()}}", {"K", "V"}))
+        rs_ = kwarg(ctor[0], "results", 2)
+        okk = kp is not None and TS.rnorm(kp, at_c) in (f"{dk}.kpoints_all.copy()", f"{dk}.kpoints_all", f"np.copy({dk}.kpoints_all)", f"np.array({dk}.kpoints_all)")
+        okr = False
+        if rs_ is not None:
+            bc = built_container(TS, rs_ if not isinstance(rs_, ast.Name) else rs_.id, at_c) if isinstance(rs_, (ast.Name, ast.DictComp)) else None
+            if bc is not None and bc.kind == "dict" and len(bc.loops) == 1 and not bc.conds:
+                tgt, it = bc.loops[0]
+                if norm(it) == "self.tabulators.items()" and isinstance(tgt, ast.Tuple) and len(tgt.elts) == 2:
+                    okr = norm(bc.key) == norm(tgt.elts[0]) and norm(bc.value) == f"{norm(tgt.elts[1])}({dk})"
+                elif norm(it) in ("self.tabulators", "self.tabulators.keys()") and isinstance(tgt, ast.Name):
+                    okr = norm(bc.key) == tgt.id and norm(bc.value) == f"self.tabulators[{tgt.id}]({dk})"
         r2.check(okk and okr, "a tabulation block stores the k-points it was evaluated at, next to every tabulator's values for the same data_K", ta, ctor[0],
                  f"TabulatorAll pairs results with `{norm1(kp) if kp is not None else None}` instead of {dk}.kpoints_all / does not evaluate every tabulator on {dk}")
+
+    # ---------------------------------------------------------------- R30.4
+    r4 = ctx.rule("R30.4", "band columns: column j of a tabulated quantity belongs to the j-th requested band")
+    tb = idx.function(TC, "Tabulator.__call__")
+    r4.instance(tb.short)
+    check_band_values(r4, idx, tb, average=True)
 
     # ---------------------------------------------------------------- R30.3
     r3 = ctx.rule("R30.3", "component extraction")
     gc = idx.function(KB, "get_component")
     r3.instance(gc.short)
-    G = Frag(gc)
-    xyz = None
-    xyzname = None
-    for s in stmts(gc.node):
-        if isinstance(s, ast.Assign) and isinstance(s.targets[0], ast.Name) and isinstance(s.value, ast.Dict) \
-                and all(isinstance(k, ast.Constant) for k in s.value.keys) and {k.value for k in s.value.keys} >= {"x", "y", "z"}:
-            xyz = {k.value: const_of(v) for k, v in zip(s.value.keys, s.value.values)}
-            xyzname = s.targets[0].id
+    GS = Sem(idx, gc)
+    GS.subst_consts = False
+    datap, ndimp, compp = gc.params[:3]
+    # the letter → axis table: a dict literal with keys x, y, z, local or at module level
+    xyz, xyzname = None, None
+    cands = [(s_.targets[0].id, s_.value) for s_ in stmts(gc.node) if isinstance(s_, ast.Assign) and isinstance(s_.targets[0], ast.Name) and isinstance(s_.value, ast.Dict)]
+    cands += [(k_, v_[0]) for k_, v_ in gc.module.assigns.items() if len(v_) == 1 and isinstance(v_[0], ast.Dict)
+              and any(isinstance(n, ast.Name) and n.id == k_ for n in ast.walk(gc.node))]
+    for nm, dv in cands:
+        if all(isinstance(k, ast.Constant) for k in dv.keys) and {k.value for k in dv.keys} >= {"x", "y", "z"}:
+            xyz = {k.value: const_of(v) for k, v in zip(dv.keys, dv.values)}
+            xyzname = nm
     if xyz is None:
         r3.expect(False, "component table located", gc, gc.node, "get_component: the {'x':…, 'y':…, 'z':…} table was not found")
         return
-    r3.check(xyz == {"x": 0, "y": 1, "z": 2}, "x, y, z ↦ 0, 1, 2", gc, gc.node, f"component table is {xyz}", stmt="xyz")
-    datap, ndimp, compp = gc.params[:3]
-    r3.check(G.all(f"_data = {datap}.transpose(dims[-{ndimp}:] + dims[:-{ndimp}])", f"return _data[tuple([{xyzname}[c] for c in {compp}])]"),
-             "string components index the trailing axes in the order written", gc, gc.node,
+    r3.check({k: xyz[k] for k in "xyz"} == {"x": 0, "y": 1, "z": 2}, "x, y, z ↦ 0, 1, 2", gc, gc.node, f"component table is {xyz}", stmt="xyz")
+    rets = [s_ for s_ in stmts(gc.node) if isinstance(s_, ast.Return) and s_.value is not None]
+    res = [(r_, GS.resolve(r_.value, GS.cfg.node(r_))) for r_ in rets]
+    TR = f"{datap}.transpose(tuple(np.arange({datap}.ndim))[-{ndimp}:] + tuple(np.arange({datap}.ndim))[:-{ndimp}])"
+    TR2 = f"np.moveaxis({datap}, range(-{ndimp}, 0), range({ndimp}))"
+
+    def any_ret(*pats, metas=()):
+        for r_, v_ in res:
+            for p_ in pats:
+                m_ = pmatch(v_, p_, set(metas))
+                if m_ and m_[0][0] is v_:
+                    return r_
+        return None
+    multi = any_ret(*[f"{t_}[tuple([{xyzname}[C_] for C_ in {compp}])]" for t_ in (TR, TR2)], metas={"C_"})
+    r3.check(multi is not None, "string components index the trailing axes in the order written", gc, gc.node,
              "multi-letter components no longer index the trailing (tensor) axes in the order written", stmt="string comps")
-    r3.check(G.has(f"return sum([_data[(i,) * {ndimp}] for i in range(3)])") or G.has(f"return sum(_data[(i,) * {ndimp}] for i in range(3))"),
-             "trace = Σ_i T[i, i, …] over i = 0, 1, 2", gc, gc.node, "`trace` is no longer the sum of the three diagonal elements", stmt="trace")
-    tl = G.find(f"for k in {compp}[-1::-1]:\n    Xnk = Xnk[..., k]") or G.find(f"for k in reversed({compp}):\n    Xnk = Xnk[..., k]")
-    r3.check(bool(tl), "tuple components peel trailing axes from the last one", gc, gc.node,
+    trc = any_ret(*[f"sum([{t_}[(I_,) * {ndimp}] for I_ in range(3)])" for t_ in (TR, TR2)], f"np.trace({datap}, axis1=-2, axis2=-1)", metas={"I_"})
+    r3.check(trc is not None and GS.holds(trc, f"{compp} == 'trace'"), "trace = Σ_i T[i, i, …] over i = 0, 1, 2, returned for component 'trace'", gc, trc or gc.node,
+             "`trace` is no longer the sum of the three diagonal elements", stmt="trace")
+    # tuple components: peel the trailing axes starting with the last component
+    peel = [l for l in stmts(gc.node) if isinstance(l, ast.For) and isinstance(l.target, ast.Name) and len(l.body) == 1
+            and pmatch(l.body[0], f"X_ = X_[..., {l.target.id}]", {"X_"}) and pmatch(l.body[0], f"X_ = X_[..., {l.target.id}]", {"X_"})[0][0] is l.body[0]]
+    okt = len(peel) == 1 and norm(peel[0].iter).replace(" ", "") in (f"{compp}[-1::-1]", f"{compp}[::-1]", f"reversed({compp})")
+    if len(peel) == 1:
+        xn = pmatch(peel[0].body[0], f"X_ = X_[..., {peel[0].target.id}]", {"X_"})[0][1]["X_"]
+        xd = GS.du.reaching(xn, GS.cfg.node(peel[0]))
+        okt = okt and any(d_.value is not None and norm(d_.value) in (f"np.copy({datap})", f"{datap}.copy()", datap, f"np.array({datap})") for d_ in xd) and \
+            any(norm(r_.value) == xn for r_ in rets)
+    r3.check(okt, "tuple components peel trailing axes from the last one", gc, peel[0] if peel else gc.node,
              "tuple components no longer index the trailing axes in order (last component ↔ last axis first)", stmt="tuple comps")
-    r3.check(G.has(f"return {datap}[..., {xyzname}[{compp}]]") and G.has(f"return np.linalg.norm({datap}, axis=-1)"),
-             "vector components / norm act on the last axis", gc, gc.node, "vector component / norm extraction changed", stmt="vector comps")
+    vec = any_ret(f"{datap}[..., {xyzname}[{compp}]]")
+    nrm = any_ret(f"np.linalg.norm({datap}, axis=-1)")
+    r3.check(vec is not None and nrm is not None and GS.holds(vec, f"{ndimp} == 1") and GS.holds(nrm, f"{compp} == 'norm'"),
+             "vector components / norm act on the last axis", gc, vec or gc.node, "vector component / norm extraction changed", stmt="vector comps")
     cl = idx.function(KB, "K__Result.get_component_list")
-    C = Frag(cl)
-    r3.check(C.has("itertools.product(*[('x', 'y', 'z')] * dim)") or C.has("itertools.product('xyz', repeat=dim)") or C.has("itertools.product(('x', 'y', 'z'), repeat=dim)"),
-             "component list enumerates xyz^dim", cl, cl.node, "the component list is no longer the product {x,y,z}^dim", stmt="component list")
+    CS = Sem(idx, cl)
+    prods = [c for c in ast.walk(cl.node) if isinstance(c, ast.Call) and call_name(c) == "itertools.product"]
+    okp = False
+    if len(prods) == 1:
+        c = prods[0]
+        at_ = CS.du.node_of_expr(c) if any(x is c for s_ in stmts(cl.node) for x in ast.walk(s_)) else None
+        dimtxt = None
+        if len(c.args) == 1 and isinstance(c.args[0], ast.Starred):
+            m_ = pmatch(c.args[0].value, "[('x', 'y', 'z')] * D_", {"D_"}) or pmatch(c.args[0].value, "['xyz'] * D_", {"D_"}) or pmatch(c.args[0].value, "('xyz',) * D_", {"D_"})
+            dimtxt = m_[0][1]["D_"] if m_ else None
+        elif len(c.args) == 1 and kwarg(c, "repeat") is not None and const_of(c.args[0]) in ("xyz", ("x", "y", "z"), ["x", "y", "z"]):
+            dimtxt = norm(kwarg(c, "repeat"))
+        if dimtxt is not None and at_ is not None:
+            dres = CS.rnorm(ast.parse(dimtxt, mode="eval").body, at_)
+            okp = dres in ("len(self.data.shape[2:])", "self.data.ndim - 2", "len(self.data.shape) - 2", "self.ndim")
+    r3.check(okp, "component list enumerates xyz^dim, dim = number of tensor axes", cl, prods[0] if prods else cl.node,
+             "the component list is no longer the product {x,y,z}^dim over the tensor axes", stmt="component list")
 
 
 from ..selftest import V  # noqa: E402
